@@ -127,6 +127,9 @@ type sharedApp struct {
 var sharedApps [2]*sharedApp
 
 func openSharedApps() error {
+	// one signature-checking goroutine per block instead of one per CPU (they poll): the
+	// degree of parallelism of the transaction verifier is C05's subject, not this check's
+	evm.VerifSetValidateRoutineCount(1)
 	for i := range sharedApps {
 		if sharedApps[i] != nil {
 			continue
@@ -180,6 +183,7 @@ func freshAccounts() {
 // adminCall records what one invocation of the callback did (instrumentation only).
 type adminCall struct {
 	from []byte
+	data []byte
 	obs  *change
 	n    int // entries added to the collected list
 	err  error
@@ -197,7 +201,7 @@ func adminCallback(app *vm.AdminDBApp, data []byte) error {
 	r := executing
 	before := len(r.op.ChangedValidators)
 	err := r.op.ExecTX(a, data)
-	c := adminCall{from: append([]byte{}, app.From()...), err: err, n: len(r.op.ChangedValidators) - before}
+	c := adminCall{from: append([]byte{}, app.From()...), data: append([]byte{}, data...), err: err, n: len(r.op.ChangedValidators) - before}
 	if c.n > 0 {
 		c.obs = observed(r.op.ChangedValidators[before])
 	}
@@ -407,9 +411,12 @@ func runEvmCase(c EvmCase, x *h.Ctx) {
 		}
 		// 2. the block's transactions
 		type sent struct {
-			desc  string
-			v     verdict
-			valid bool // the carrying transaction is executed
+			desc    string
+			v       verdict
+			valid   bool // the carrying transaction is executed
+			direct  bool
+			from    []byte // what the callback must be told
+			payload []byte
 		}
 		var txs [][]byte
 		var sents []sent
@@ -452,7 +459,7 @@ func runEvmCase(c EvmCase, x *h.Ctx) {
 				// admin contract only is as right as one that serves an honest direct call.
 				v.strict = nil
 			}
-			sents = append(sents, sent{valid: true, v: v, desc: fmt.Sprintf("%s cmd=%q target=K%d(len %d) power=%d signed-addr=%d signed-nonce=%d account-nonce=%d raw=%q entries=%d model=%v/%v(%s)",
+			sents = append(sents, sent{valid: true, v: v, direct: t.Via == "direct", from: accts[claim].addr.Bytes(), payload: b.tx, desc: fmt.Sprintf("%s cmd=%q target=K%d(len %d) power=%d signed-addr=%d signed-nonce=%d account-nonce=%d raw=%q entries=%d model=%v/%v(%s)",
 				what, b.spec.Cmd, b.spec.Target, b.spec.TargetLen, b.spec.Power, b.addr, b.nonce, pre, b.spec.Raw, len(b.entries), v.strict, v.lenient, v.why)})
 			x.Label("via:" + t.Via)
 		}
@@ -470,20 +477,50 @@ func runEvmCase(c EvmCase, x *h.Ctx) {
 			x.Fail("block-execution-panics", "block %d: %v\n%s", height, pvA, all())
 			return
 		}
-		// every executed transaction reaches the callback exactly once, in order
+		// Every executed transaction to the admin contract reaches the callback exactly once,
+		// in order. A transaction straight to 0xfe may be turned away before the callback (a
+		// node may serve the precompile to the admin contract only).
 		var valid []sent
+		nContract := 0
 		for _, s := range sents {
 			if s.valid {
 				valid = append(valid, s)
+				if !s.direct {
+					nContract++
+				}
 			}
 		}
-		if len(A.calls) != len(valid) || len(res.InvalidTxs) != len(sents)-len(valid) {
-			x.Fail("transactions-executed-differ-from-model", "block %d: %d callback invocations and %d invalid transactions for %d transactions of which the model executes %d\n%s", height, len(A.calls), len(res.InvalidTxs), len(sents), len(valid), all())
+		callOf := make([]*adminCall, len(valid))
+		cur := 0
+		for i, s := range valid {
+			takes := false
+			switch {
+			case len(A.calls) == len(valid):
+				takes = true
+			case len(A.calls) == nContract:
+				takes = !s.direct
+			default:
+				takes = cur < len(A.calls) && bytes.Equal(A.calls[cur].from, s.from) && bytes.Equal(A.calls[cur].data, s.payload)
+			}
+			if takes && cur < len(A.calls) {
+				callOf[i] = &A.calls[cur]
+				cur++
+			}
+			if c := callOf[i]; (c == nil && !s.direct) || (c != nil && (!bytes.Equal(c.from, s.from) || !bytes.Equal(c.data, s.payload))) {
+				cur = -1
+				break
+			}
+		}
+		if cur != len(A.calls) || len(res.InvalidTxs) != len(sents)-len(valid) {
+			x.Fail("transactions-executed-differ-from-model", "block %d: %d callback invocations and %d invalid transactions for %d transactions of which the model executes %d (%d through the admin contract); or the callback was handed other from-bytes/payload than were sent\n%s", height, len(A.calls), len(res.InvalidTxs), len(sents), len(valid), nContract, all())
 			return
 		}
 		m.pending = nil
 		for i, s := range valid {
-			call := A.calls[i]
+			call := adminCall{err: fmt.Errorf("turned away before the callback")}
+			if callOf[i] != nil {
+				call = *callOf[i]
+			}
 			obs := call.obs
 			detail := fmt.Sprintf("%s; set %s; implementation collected %v (err: %v)", s.desc, before, obs, call.err)
 			if call.n > 1 || call.n < 0 {
